@@ -172,13 +172,74 @@ def run_explicit(case):
     return d, res
 
 
+def run_multi(case, explicit=False):
+    """the same property in the multi-connection regime of C12: connect-retry below the TCP timeout, and the
+    connectionLost after the agent's own close delivered as an event of its own (possibly after the next attempt started)"""
+    from vlib.props.c12 import MDriver, pick as pick12
+    cfg = case['cfg']
+    fresh_open(cfg)
+    d = MDriver({'connect_retry': cfg['connect_retry'], 'hold': cfg['hold'], 'idle_hold': cfg['idle_hold']})
+    if explicit:
+        for ev in case['events']:
+            if list(ev) not in d.enabled():
+                return d, []
+            d.apply(list(ev))
+    else:
+        d.apply(['boot'])
+        for ch in case['choices']:
+            d.apply(pick12(d.enabled(), ch))
+    res = [f for f in d.failures if f[0].startswith(('escaped', 'livelock'))]
+    operator_start(d)
+    sim, r = d.sim, d.sim.reactor
+    # late completions do arrive in the end
+    while r.pending_io():
+        r.deliver_io(0)
+        r.settle(fire_due=True)
+    t0 = sim.now
+    pending = {'live': len(ss.live_connectors(sim)), 'attempts': len(r.attempts()), 'timers': [c.name for c in r.pending()]}
+    before_state = sim.state
+    if not pending['live'] and not pending['attempts'] and not pending['timers']:
+        res.append(('nothing-pending:%s' % before_state, 'at hand-over (t=%s, state %s) no connection, attempt or timer is pending' % (t0, before_state)))
+    bound = cfg['idle_hold'] + max(cfg['connect_retry'], 30) + 240 + 1
+    H = sim.fsm.hold_time if sim.state == 'ESTABLISHED' else min(cfg['hold'], PEER_HOLD)
+    est = ss.cooperate(sim, t0 + bound, peer_hold=PEER_HOLD)
+    if est is None:
+        res.append(('not-reestablished:from-%s:ends-%s' % (before_state, sim.state),
+                    'multi-connection regime: not ESTABLISHED within %ss of the hand-over (pending then %r, now %r)'
+                    % (bound, pending, [c.name for c in r.pending()])))
+    elif not ss.stay_up(sim, H):
+        res.append(('does-not-stay-up:H=%s' % ('0' if H == 0 else 'pos'), 'multi-connection regime: session left ESTABLISHED (now %s), H=%s'
+                    % (sim.state, H)))
+    return d, res
+
+
 def shards(tier):
     n = 1500 if tier == 'quick' else 30000
-    return [{'name': 'prefixes-%d' % i, 'kind': 'hyp', 'examples': n, 'hypothesis': True,
-             'steps': 14 if tier == 'quick' else 30} for i in range(8 if tier == 'quick' else 16)]
+    out = [{'name': 'prefixes-%d' % i, 'kind': 'hyp', 'examples': n, 'hypothesis': True,
+            'steps': 14 if tier == 'quick' else 30} for i in range(8 if tier == 'quick' else 16)]
+    out += [{'name': 'multi-%d' % i, 'kind': 'multi', 'examples': 600 if tier == 'quick' else 12000, 'hypothesis': True,
+             'steps': 20 if tier == 'quick' else 40} for i in range(4 if tier == 'quick' else 8)]
+    return out
+
+
+MULTI_CONFIGS = [{'hold': 180, 'idle_hold': 30, 'connect_retry': 60}, {'hold': 180, 'idle_hold': 10, 'connect_retry': 5},
+                 {'hold': 9, 'idle_hold': 5, 'connect_retry': 29}, {'hold': 180, 'idle_hold': 0, 'connect_retry': 30},
+                 {'hold': 90, 'idle_hold': 5, 'connect_retry': 31}]
 
 
 def run_shard(spec, seed, col, tier):
+    if spec['kind'] == 'multi':
+        def mbody(case):
+            d, res = run_multi(case)
+            explicit = {'multi': True, 'cfg': case['cfg'], 'events': d.history}
+            col.case(explicit, True, labels=['multi-connection', 'cfg:%(hold)s/%(idle_hold)s/%(connect_retry)s' % case['cfg']])
+            for sig, detail in res:
+                col.fail(sig, explicit, detail)
+        mstrat = st.fixed_dictionaries({'cfg': st.sampled_from(MULTI_CONFIGS),
+                                        'choices': st.lists(st.integers(0, 999), min_size=0, max_size=spec['steps'])})
+        hyp_run(col, mstrat, mbody, seed, spec['examples'])
+        return
+
     def body(case):
         d, res = run_case(case)
         explicit = {'cfg': case['cfg'], 'events': d.history, 'peer_id': case.get('peer_id', ss.PEER_ID)}
@@ -193,4 +254,6 @@ def run_shard(spec, seed, col, tier):
 
 
 def replay(case):
+    if case.get('multi'):
+        return run_multi(case, explicit=True)[1]
     return run_explicit(case)[1]
